@@ -6,6 +6,7 @@ CONSTANTS
   BufsOf <- TBufsOf
   Home <- THome2
   Progs <- TProgs
+  CtxOf <- TCtx
   Deviations = {}
 CONSTRAINT Mark
 POSTCONDITION Accepted
